@@ -87,6 +87,12 @@ BASIC = [
     G('optional-attrs', [Rule('M', S(Str('m'), Opt(Asg('i', '=', INT)), Opt(S(Str(','), Asg('s', '=', STRING))),
                                      Opt(S(Str(';'), Asg('f', '=', FLOAT)))))]),
     G('basetypes', [Rule('M', Asg('vs', '+=', Ref('BASETYPE'), sep=Str(',')))]),
+    # defaults of the unassigned attributes of every base type (auto_init_attributes)
+    G('optional-attrs-all-basetypes', [Rule('M', S(Str('m'), Opt(S(Str('s'), Asg('sf', '=', Ref('STRICTFLOAT')))),
+                                                   Opt(S(Str('t'), Asg('bt', '=', Ref('BASETYPE')))),
+                                                   Opt(S(Str('n'), Asg('nu', '=', NUMBER))),
+                                                   Opt(S(Str('o'), Asg('bo', '=', BOOL))),
+                                                   Opt(S(Str('i'), Asg('idn', '=', ID))), Str(';')))]),
     G('number', [Rule('M', S(Asg('a', '=', NUMBER), Asg('b', '=', BOOL)))]),
     G('nested-obj', [Rule('M', S(Str('m'), Asg('c', '=', Ref('C')))),
                      Rule('C', S(Str('c'), Asg('d', '=', Ref('D')), Asg('n', '=', INT))),
@@ -189,6 +195,11 @@ def multi_family():
         G('multi-same-literal-suppressed-later', [Rule('M', S(Str('m'), Star(A(Asg('ss', '+=', Str('+')), Asg('ss', '+=', Str('-')))),
                                                               Opt(Asg('l', '=', Ref('L'))))),
                                                   Rule('L', S(Sup(Str('<')), ID, Sup(Str('-')), Sup(Str('+'))))], tags=['multi']),
+        # a reference to a common rule is suppressed in one place; the rule is assigned in others
+        G('multi-rule-suppressed-then-assigned', [Rule('M', S(Sup(Ref('P')), Asg('o', '=', Ref('P')),
+                                                              Star(S(Str('p'), Asg('ps', '=', Ref('P')))))),
+                                                  Rule('P', S(Str('<'), Asg('x', '=', INT), Star(S(Str(','), Asg('x', '=', INT)))))],
+          tags=['multi']),
         # a repeat operator directly on a list assignment (the assignment itself is a repetition)
         G('multi-opt-of-star-asg', [Rule('M', S(Str('m'), Opt(Asg('a', '*=', INT)), Str(';')))], tags=['multi']),
         G('multi-plus-of-star-asg', [Rule('M', S(Asg('a', '=', INT), Plus(Asg('a', '*=', INT)), Opt(Str(';'))))], tags=['multi']),
@@ -224,6 +235,21 @@ KINDS = [
     G('kinds-optional-first-ref', [Rule('M', Asg('es', '+=', Ref('A'))),
                                    Rule('A', A(S(Opt(Ref('Q')), Ref('N')), Ref('R'))), N_, Q_,
                                    Rule('R', S(Str('r'), Asg('z', '=', ID)))], tags=['kinds']),
+    G('kinds-star-first-ref', [Rule('M', Asg('es', '+=', Ref('A'))),
+                               Rule('A', A(S(Star(Ref('Q')), Ref('N')), Ref('R'))), N_, Q_,
+                               Rule('R', S(Str('r'), Asg('z', '=', ID)))], tags=['kinds']),
+    # ... or yields no object although it matches (a match rule alternative, a bracketed optional), or
+    # matches after what follows it (unordered group)
+    G('kinds-match-alternative-first', [Rule('M', Asg('es', '+=', Ref('A'))),
+                                        Rule('A', A(S(A(Ref('Q'), Ref('W')), Ref('N')), Ref('R'))), N_, Q_,
+                                        Rule('W', Str('w')),
+                                        Rule('R', S(Str('r'), Asg('z', '=', ID)))], tags=['kinds']),
+    G('kinds-bracketed-optional-first', [Rule('M', Asg('es', '+=', Ref('A'))),
+                                         Rule('A', A(S(S(Str('['), Opt(Ref('Q')), Str(']')), Ref('N')), Ref('R'))), N_, Q_,
+                                         Rule('R', S(Str('r'), Asg('z', '=', ID)))], tags=['kinds']),
+    G('kinds-unordered-group', [Rule('M', Asg('es', '+=', Ref('A'))),
+                                Rule('A', A(Ung([Ref('Q'), Ref('R')]), Ref('N'))), N_, Q_,
+                                Rule('R', S(Str('r'), Asg('z', '=', ID)))], tags=['kinds']),
     G('kinds-predicate-first-ref', [Rule('M', Asg('es', '+=', Ref('A'))),
                                     Rule('A', A(S(Not_(Ref('R')), Ref('N')), Ref('R'))), N_,
                                     Rule('R', S(Str('r'), Asg('z', '=', ID)))], tags=['kinds']),
